@@ -96,7 +96,7 @@ def gen(rng, tier):
     n = 4000 if thorough else 350
     cases = [merged_over_unknown(rng.fork("m%d" % i)) for i in range(40 if thorough else 16)]
     cases += [unknown_member_stringified(rng.fork("u%d" % i)) for i in range(120 if thorough else 40)]
-    cases += G.flag_matrix_worlds()
+    cases += G.flag_matrix_worlds() + G.provider_layer_worlds(thorough)
     for i in range(n):
         clean = rng.chance(3, 4)
         g = G.RichGen(rng.fork("w%d" % i), bad_refs=not clean, nonobject_inputs=False, faulty=not clean)
